@@ -282,6 +282,8 @@ GRAPHS: List[Tuple[str, int, List[Tuple[int, int]]]] = [
     # fewer edges than vertices and still cyclic (edge-count shortcuts are wrong on disconnected graphs)
     ("triangle+isolated", 4, [(0, 1), (1, 2), (0, 2)]),
     ("parallel edges+isolated", 3, [(0, 1), (0, 1)]),
+    # non-bipartite and dense: a spanning star has two adjacent leaves at the same depth (rank differences along tree edges are not +-1)
+    ("K4", 4, [(0, 1), (0, 2), (0, 3), (1, 2), (1, 3), (2, 3)]),
 ]
 
 
